@@ -146,6 +146,8 @@ def decide(gd, idx, cls, tier, rng):
     problems = []
     kind = {1: "fraction", 3: "decimal"}.get(idx % 4) if cls != "FIG55" else None
     res["stats"]["games_with_exact_rewards"] = int(kind is not None)
+    if kind is not None and len(hs) > 10:
+        hs = rng.sample(hs, 10)          # exact arithmetic is slow: ten histories per such game
     for h in hs:
         pr, k, removed = run_history(gd, h, limit, kind)
         if pr is None:
@@ -246,8 +248,9 @@ def decide_xproc(idx, seed):
                 continue
             an = analysis.Analysis(gd)
             try:
-                if an.stopping and an.finals_absorbing and max(an.tmax) < 200:
-                    break
+                if an.stopping and an.finals_absorbing and max(an.tmax) < 200 and \
+                        all(monitors.observed_solve(games.to_solver(gd), p_, sc.limit_for(an)).status in ("ok", "nosol") for p_ in (True, False)):
+                    break            # only games whose solves finish here go to the other processes (no budget there, only a timer)
             except Exception:
                 pass
             gd = None
@@ -260,7 +263,7 @@ def decide_xproc(idx, seed):
     for hs in ("0", "1", "4242"):
         env = dict(os.environ, PYTHONPATH=bootstrap.VERIF, PYTHONHASHSEED=hs)
         try:
-            p = subprocess.run([bootstrap.PYTHON, "-B", "-m", "vf.xproc_solve", "20"], input=payload, capture_output=True, text=True,
+            p = subprocess.run([bootstrap.PYTHON, "-B", "-m", "vf.xproc_solve", "5"], input=payload, capture_output=True, text=True,
                                env=env, timeout=900, cwd=bootstrap.VERIF)
         except subprocess.TimeoutExpired:
             res.update(verdict="inconclusive", what="solver process with PYTHONHASHSEED=%s did not finish" % hs)
